@@ -2,7 +2,7 @@
     (program/section header table walking with file-controlled entry sizes and
     counts, extended numbering, string table index), the first checks of
     [open_common] and the first walk over the PT_NOTE segments
-    (src/kdumpfile/elfdump.c, repaired by fixes 15, 74, 75, 79).
+    (src/kdumpfile/elfdump.c, repaired by fixes 15, 74, 75, 79, 93, 94).
 
     Every header field is read through the checked accessors of a chunk that
     is exactly as long as the C code asked the file cache for: [e_phentsize]
@@ -53,6 +53,12 @@ Definition hdr_chunk (alim : N) (f : file) (sect : bool) (idx : N) (entsz : N) (
   | Err st _ => Err st (StHdrRead sect idx (of_off off))
   | r => r
   end.
+
+(** [check_hdr_table] (fix 94): a non-empty table must lie within the file;
+    of the last entry only the header structure ([hdrsz] bytes) *)
+Definition hdr_table_ok (flen : N) (off : Z) (num entsz hdrsz : N) : bool :=
+  negb ((18446744073709551615 - hdrsz) / entsz <? num - 1) &&
+  extent_ok flen off ((num - 1) * entsz + hdrsz).
 
 (** malloc(n): fails above the allocation limit *)
 Definition alloc (alim n : N) : bool := n <=? alim.
@@ -196,9 +202,13 @@ Definition init_elf (alim : N) (f : file) (flen : N) (be is64 : bool) (eh : chun
            else if alloc alim (shnum * SIZEOF_SECTION) then Ok tt else Err KSYSTEM StAlloc);
   do segs <- (if negb (phnum =? 0) && (phentsize <? sizeof_phdr is64)
               then Err KCORRUPT (StHdrSize false phentsize)
+              else if negb (phnum =? 0) && negb (hdr_table_ok flen phoff phnum phentsize (sizeof_phdr is64))
+              then Err KCORRUPT (StHdrExtent false phnum (of_off phoff))
               else read_phdrs alim f be is64 phnum phentsize phoff);
   do sects <- (if negb (shnum =? 0) && (shentsize <? sizeof_shdr is64)
                then Err KCORRUPT (StHdrSize true shentsize)
+               else if negb (shnum =? 0) && negb (hdr_table_ok flen shoff shnum shentsize (sizeof_shdr is64))
+               then Err KCORRUPT (StHdrExtent true shnum (of_off shoff))
                else read_shdrs alim f be is64 shnum shentsize shoff);
   do strtab <- init_strtab alim f flen shnum sects shstrndx;
   Ok {| et_be := be; et_is64 := is64; et_machine := machine;
